@@ -447,6 +447,77 @@ func sfDoKey(props []string, rels ...string) {
 	emitStr("sf_do_key", props, found[0])
 }
 
+func emitNatList(fact string, props []string, v []int) {
+	names = append(names, fact)
+	q := make([]string, len(v))
+	for i, n := range v {
+		q[i] = strconv.Itoa(n)
+	}
+	fmt.Fprintf(&out, "/-- serves %s -/\ndef %s : List Nat := [%s]\n\n", strings.Join(props, " "), fact, strings.Join(q, ", "))
+}
+
+var httpStatus = map[string]int{"StatusOK": 200, "StatusCreated": 201, "StatusAccepted": 202, "StatusBadRequest": 400, "StatusUnauthorized": 401,
+	"StatusForbidden": 403, "StatusNotFound": 404, "StatusRequestTimeout": 408, "StatusTooManyRequests": 429, "StatusInternalServerError": 500,
+	"StatusNotImplemented": 501, "StatusBadGateway": 502, "StatusServiceUnavailable": 503, "StatusGatewayTimeout": 504}
+
+// statusSetFact: a predicate of the form `return x == http.A || x == http.B || …` (or numeric literals)
+func statusSetFact(fact string, props []string, rel, fn string) {
+	fd := findFunc(parse(rel), "", fn)
+	if fd == nil || fd.Body == nil || len(fd.Body.List) != 1 {
+		fail(fact, props, fn+" not found or not a single return in "+rel)
+		return
+	}
+	ret, ok := fd.Body.List[0].(*ast.ReturnStmt)
+	if !ok || len(ret.Results) != 1 {
+		fail(fact, props, fn+" is not a single return")
+		return
+	}
+	var codes []int
+	bad := false
+	var walk func(e ast.Expr)
+	walk = func(e ast.Expr) {
+		switch x := e.(type) {
+		case *ast.ParenExpr:
+			walk(x.X)
+		case *ast.BinaryExpr:
+			if x.Op == token.LOR {
+				walk(x.X)
+				walk(x.Y)
+				return
+			}
+			if x.Op != token.EQL {
+				bad = true
+				return
+			}
+			switch y := x.Y.(type) {
+			case *ast.SelectorExpr:
+				if c, ok := httpStatus[y.Sel.Name]; ok {
+					codes = append(codes, c)
+				} else {
+					bad = true
+				}
+			case *ast.BasicLit:
+				n, err := strconv.Atoi(y.Value)
+				if err != nil {
+					bad = true
+				}
+				codes = append(codes, n)
+			default:
+				bad = true
+			}
+		default:
+			bad = true
+		}
+	}
+	walk(ret.Results[0])
+	if bad {
+		fail(fact, props, fn+" has a shape the extractor does not understand: "+exprString(ret.Results[0]))
+		return
+	}
+	sort.Ints(codes)
+	emitNatList(fact, props, codes)
+}
+
 func unq(s string) string {
 	u, err := strconv.Unquote(s)
 	if err != nil {
